@@ -72,6 +72,25 @@ CLAIMED = {
         "note": "Trusted: the documented event model as transcribed in refmodel/{dtl,ordered,unordered}.py; ete3; the in-process CLI driver.",
         "technique": "exhaustive enumeration of model states (solutions) with every trace replayed against the implementation's evaluator",
     },
+    "C07": {
+        "category": "exploration",
+        "text": "Bounded-exhaustive: every binary input with <=4x<=4 and 5x<=3 leaves (quick) / 5x<=4, 4x5, 3x6 (thorough), every leaf assignment; "
+                "reconcile_lca's mapping = model LCA mapping, valid, and cheapest among ALL transfer-free valid mappings (enumerated by the model) "
+                "for all 36 (dup, loss) in {0..5}^2, unique when loss > 0; implementation cost = model cost.",
+        "design_ref": "6 (C07)",
+        "note": "Trusted: refmodel/dtl.py. The comparison with thl at hgt=inf is C10's.",
+        "technique": TECH_E2,
+    },
+    "C10": {
+        "category": "exploration",
+        "text": "Bounded-exhaustive differential check between the seven algorithms on every consistent labelled input of the slices "
+                "(quick O3x2x3; thorough O3x3x3, O4x3x2) and on every single-family labelling of the P-slices (quick P4x3; thorough P4x4, 5x<=3), "
+                "coherent cost menu: ext <= base, unordered <= ordered, thl <= lca (= at hgt=inf), single family: ext_spfs = superdtl = thl and "
+                "base_spfs = base_uspfs = lca.",
+        "design_ref": "6 (C10)",
+        "note": "No oracle: compares the implementations' own cost() values (C06 validates those). Coherent cost region only.",
+        "technique": "bounded-exhaustive enumeration of inputs x configurations with differential (cross-algorithm) oracle",
+    },
     "C16": {
         "category": "model_checking",
         "text": "Explicit-state BFS over all reachable states of real Entry objects and table cells (1-3 dimensional, "
